@@ -1,0 +1,29 @@
+//go:build verif
+
+package dnsforward
+
+import (
+	"github.com/AdguardTeam/dnsproxy/proxy"
+	"github.com/AdguardTeam/dnsproxy/upstream"
+)
+
+// This file is only compiled with the "verif" build tag.  It adds accessors
+// used by the external deterministic-simulation harness and changes nothing
+// in the shipped build.
+
+// VerifProxy returns the prepared DNS proxy of s.
+func (s *Server) VerifProxy() (p *proxy.Proxy) {
+	return s.proxy()
+}
+
+// VerifSetUpstreams replaces the main upstreams of a prepared server the same
+// way the package's own tests do.
+func (s *Server) VerifSetUpstreams(ups []upstream.Upstream) {
+	s.conf.UpstreamConfig.Upstreams = ups
+}
+
+// VerifResetWebRegistered allows a new server instance of the same process to
+// register its HTTP handlers again (simulated restart).
+func VerifResetWebRegistered() {
+	webRegistered = false
+}
